@@ -6,6 +6,7 @@ CONSTANTS
   Kinds = {"close", "keep", "ws"}
   SigTwice = TRUE
   Dev = {}
+  Faults = {}
 SPECIFICATION Spec
 INVARIANTS TypeOK Inv_PortFree Inv_ServingBefore Inv_NoTruncation Inv_Owned Inv_DispatchedKept Inv_WakeUnserved
 PROPERTIES Live_RunReturns Live_Accepts
